@@ -368,9 +368,102 @@ func (c *c14) allocLimitPositions(r *fw.Rec, rng *rand.Rand) {
 	r.Distinct(src)
 }
 
+// c14WrapErr is an embedder's own error type that wraps a cause (possibly one of the engine's own error values).
+type c14WrapErr struct {
+	Code  int
+	Inner error
+}
+
+func (e *c14WrapErr) Error() string { return fmt.Sprintf("host wrapper %d: %v", e.Code, e.Inner) }
+func (e *c14WrapErr) Unwrap() error { return e.Inner }
+
+// hostErrorChains: a host function fails with an error chain of its own making — its own type, its own type around an
+// engine error value, fmt.Errorf("%w") around either — at some call depth. Every link must stay reachable through
+// errors.Is / errors.As in the error the run returns.
+func (c *c14) hostErrorChains(r *fw.Rec, rng *rand.Rand) {
+	argT := tengo.ErrInvalidArgumentType{Name: "first", Expected: "int", Found: "string"}
+	plain := &c14HostErr{Code: 7}
+	type shape struct {
+		name   string
+		err    error
+		isAll  []error // errors.Is targets
+		asHost bool    // errors.As(*c14HostErr)
+		asWrap bool    // errors.As(*c14WrapErr)
+		asArgT bool    // errors.As(ErrInvalidArgumentType)
+	}
+	shapes := []shape{
+		{"own type", plain, nil, true, false, false},
+		{"own type around ErrWrongNumArguments", &c14WrapErr{1, tengo.ErrWrongNumArguments}, []error{tengo.ErrWrongNumArguments}, false, true, false},
+		{"own type around ErrInvalidArgumentType", &c14WrapErr{2, argT}, nil, false, true, true},
+		{"own type around ErrIndexOutOfBounds", &c14WrapErr{3, tengo.ErrIndexOutOfBounds}, []error{tengo.ErrIndexOutOfBounds}, false, true, false},
+		{"own type around ErrStringLimit", &c14WrapErr{4, tengo.ErrStringLimit}, []error{tengo.ErrStringLimit}, false, true, false},
+		{"own type around ErrObjectAllocLimit", &c14WrapErr{5, tengo.ErrObjectAllocLimit}, []error{tengo.ErrObjectAllocLimit}, false, true, false},
+		{"own type around own type", &c14WrapErr{6, plain}, []error{plain}, true, true, false},
+		{"%w around own type", fmt.Errorf("ctx: %w", plain), []error{plain}, true, false, false},
+		{"%w around ErrInvalidArgumentType", fmt.Errorf("ctx: %w", argT), nil, false, false, true},
+		{"%w around ErrWrongNumArguments", fmt.Errorf("ctx: %w", tengo.ErrWrongNumArguments), []error{tengo.ErrWrongNumArguments}, false, false, false},
+		{"own type around %w around ErrInvalidArgumentType", &c14WrapErr{7, fmt.Errorf("deep: %w", argT)}, nil, false, true, true},
+		{"bare ErrWrongNumArguments", tengo.ErrWrongNumArguments, []error{tengo.ErrWrongNumArguments}, false, false, false},
+		{"bare ErrInvalidArgumentType", argT, nil, false, false, true},
+	}
+	sh := pick(rng, shapes)
+	depth := rng.Intn(6)
+	var sb strings.Builder
+	sb.WriteString("f0 := func(a) {\n  r := hostchain(a)\n  return r\n}\n")
+	for i := 1; i <= depth; i++ {
+		sb.WriteString(fmt.Sprintf("f%d := func(a) { if a < -5 { return 0 }; r := f%d(a); return r }\n", i, i-1))
+	}
+	sb.WriteString(fmt.Sprintf("res := f%d(1)\n", depth))
+	src := sb.String()
+	fn := &tengo.UserFunction{Name: "hostchain", Value: func(args ...tengo.Object) (tengo.Object, error) { return nil, sh.err }}
+	eng := runEngine([]byte(src), engineOpts{Budget: 1_000_000, Inputs: map[string]tengo.Object{"hostchain": fn}})
+	r.Eval()
+	r.Inc("kind:host-error-chain")
+	detail := map[string]interface{}{"source": src, "host_error_shape": sh.name, "host_error": sh.err.Error(), "engine_error": eng.FullErr, "depth": depth}
+	if eng.Phase != "runtime-error" || eng.ErrVal == nil {
+		detail["phase"] = eng.Phase
+		r.Violate("host-chain-no-error", "a failing host function did not fail the run", detail)
+		return
+	}
+	for _, t := range sh.isAll {
+		if !errors.Is(eng.ErrVal, t) {
+			detail["target"] = t.Error()
+			r.Violate("unwrap:host-chain:is:"+sh.name, "a link of a host function's error chain is not recognisable through errors.Is", detail)
+			return
+		}
+	}
+	if sh.asHost {
+		var he *c14HostErr
+		if !errors.As(eng.ErrVal, &he) || he.Code != 7 {
+			r.Violate("unwrap:host-chain:as-own:"+sh.name, "a host function's own error type is not recognisable through errors.As", detail)
+			return
+		}
+	}
+	if sh.asWrap {
+		var we *c14WrapErr
+		if !errors.As(eng.ErrVal, &we) {
+			r.Violate("unwrap:host-chain:as-wrapper:"+sh.name, "a host function's own wrapping error type is not recognisable through errors.As", detail)
+			return
+		}
+	}
+	if sh.asArgT {
+		var at tengo.ErrInvalidArgumentType
+		if !errors.As(eng.ErrVal, &at) || at.Name != "first" {
+			r.Violate("unwrap:host-chain:as-argtype:"+sh.name, "the ErrInvalidArgumentType inside a host function's error chain is not recognisable through errors.As", detail)
+			return
+		}
+	}
+	r.Inc("unwrap-checked:host-chain")
+	r.Distinct(src, sh.name)
+}
+
 func (c *c14) sentinels(r *fw.Rec, rng *rand.Rand) {
 	if rng.Intn(5) == 0 {
 		c.allocLimitPositions(r, rng)
+		return
+	}
+	if rng.Intn(3) == 0 {
+		c.hostErrorChains(r, rng)
 		return
 	}
 	depth := rng.Intn(8)
@@ -442,7 +535,7 @@ func (c *c14) sentinels(r *fw.Rec, rng *rand.Rand) {
 }
 
 func (c *c14) Finish(m *fw.Merged, tier string) {
-	for _, k := range []string{"planted-reached", "kind:planted", "kind:generated", "kind:sentinel", "traces-checked", "unwrap-checked:host", "unwrap-checked:ErrIndexOutOfBounds", "unwrap-checked:ErrObjectAllocLimit",
+	for _, k := range []string{"planted-reached", "kind:planted", "kind:generated", "kind:sentinel", "traces-checked", "unwrap-checked:host", "unwrap-checked:host-chain", "unwrap-checked:ErrIndexOutOfBounds", "unwrap-checked:ErrObjectAllocLimit",
 		"unwrap-checked:ErrStackOverflow", "unwrap-checked:ErrStringLimit", "unwrap-checked:ErrBytesLimit", "trace-frames:01", "trace-frames:05", "trace-frames:10"} {
 		if m.Counters[k] == 0 {
 			m.Fail("never observed: " + k)
